@@ -66,6 +66,8 @@ pub struct Exec {
 	pub last_stage_result: Option<bool>,
 	pub pm: crate::pm::Pm,
 	pub pm_checked: u64,
+	/// background-error state entered: every later commit must be refused
+	pub bg_err: bool,
 }
 
 pub fn wipe_dir(dir: &Path) {
@@ -114,6 +116,7 @@ impl Exec {
 			last_stage_result: None,
 			pm: crate::pm::Pm::default(),
 			pm_checked: 0,
+			bg_err: false,
 		};
 		ex.open(true)?;
 		Ok(ex)
@@ -219,7 +222,11 @@ impl Exec {
 			ops.push((*c, to_operation(op, *c, self)?));
 		}
 		let mut m2 = self.model.clone();
-		let expected = m2.apply(tx);
+		let mut expected = m2.apply(tx);
+		if self.bg_err {
+			expected = Err("database is in the background-error state".into());
+		}
+		let before = if expected.is_err() { Some((self.digest(), crate::search::hash_dir(&self.dir))) } else { None };
 		let db = self.db();
 		let r = catch_unwind(AssertUnwindSafe(|| db.commit_changes(ops)));
 		match (r, expected) {
@@ -234,6 +241,30 @@ impl Exec {
 			},
 			(Ok(Err(_)), Err(_)) => {
 				self.rejected += 1;
+				// no trace: nothing published, queued, claimed, counted or written
+				let (d0, f0) = before.unwrap();
+				let d1 = self.digest();
+				let f1 = crate::search::hash_dir(&self.dir);
+				if d0.rest_hash != d1.rest_hash || f0 != f1 {
+					let mut what = vec![];
+					if d0.commit_overlay_entries != d1.commit_overlay_entries {
+						what.push(format!("commit overlay entries {} -> {}", d0.commit_overlay_entries, d1.commit_overlay_entries));
+					}
+					if d0.commit_queue_len != d1.commit_queue_len {
+						what.push(format!("commit queue {} -> {}", d0.commit_queue_len, d1.commit_queue_len));
+					}
+					if d0.to_dereference != d1.to_dereference {
+						what.push(format!("queued tree dereferences {} -> {}", d0.to_dereference, d1.to_dereference));
+					}
+					if f0 != f1 {
+						what.push("file bytes changed".into());
+					}
+					if what.is_empty() {
+						what.push("in-memory state changed (overlay contents, claimed value-table slots, free lists or counters)".into());
+					}
+					return Err(Fail::new("trace", format!(
+						"rejected commit {} left a trace: {}", tx_short(tx), what.join("; "))))
+				}
 				Ok(false)
 			},
 			(Ok(Ok(())), Err(why)) => Err(Fail::new(
@@ -262,9 +293,15 @@ impl Exec {
 				}
 			},
 			Ev::Drain => self.drain()?,
+			Ev::BgErr => {
+				let db = self.db();
+				db.verif_store_err(Err(parity_db::Error::Corruption("injected background error".into())));
+				self.bg_err = true;
+			},
 			Ev::Reopen => {
 				self.close()?;
 				self.open(false)?;
+				self.bg_err = false;
 				let d = self.digest();
 				self.pm.sync_from(&d);
 			},
